@@ -110,7 +110,7 @@ func humanObs(out string) (string, bool) {
 
 func runC11(cfg *vh.Config) error {
 	res := vh.NewResult("C11", cfg.Seed)
-	res.Rule = "inputs: every sequence of <=3 tokens over a 24-entry alphabet (all token types, a space, a character no token starts with, an unterminated string) rendered with single spaces, every sequence of <=2 rendered adjacent; windows of the repository's .j5s/.bcl/fixture files, unmutated and with 1-3 token deletions/insertions/swaps/duplications/truncations and multi-byte characters at line ends; grammar-generated files; random token soup incl. invalid UTF-8; both failFast values; non-trivial = distinct non-empty input"
+	res.Rule = "inputs: every sequence of <=3 tokens over a 24-entry alphabet (all token types, a space, a character no token starts with, an unterminated string) rendered with single spaces, every sequence of <=2 rendered adjacent; windows of the repository's .j5s/.bcl/fixture files, unmutated and with 1-3 token deletions/insertions/swaps/duplications/truncations and multi-byte characters at line ends; grammar-generated files; every token-boundary prefix of generated statements (EOF in every grammatical position); random token soup incl. invalid UTF-8; both failFast values; non-trivial = distinct non-empty input"
 	cf := &vh.CasesFile{
 		Header: "From Coq Require Import String List NArith ZArith.\nFrom J5V.model Require Import BclErrpos BclCorr.",
 		Type:   "c11case",
@@ -180,7 +180,24 @@ func runC11(cfg *vh.Config) error {
 		}
 	}
 
+	// ---- stream 4b: every prefix (at token boundaries) of valid statements: EOF in every grammatical position
+	gp := &srcGen{r: r.Fork("prefix")}
+	nPre := cfg.Scale(60, 3000)
+	for i := 0; i < nPre; i++ {
+		var sb strings.Builder
+		gp.statement("", 1, &sb)
+		p := splitPieces(strings.TrimRight(sb.String(), "\n"))
+		if len(p) > 40 {
+			p = p[:40]
+		}
+		for k := 1; k <= len(p); k++ {
+			inputs = append(inputs, input{strings.Join(p[:k], ""), "prefix", cfg.Tier == "thorough" || r.Chance(25)})
+		}
+	}
+
 	humanBudget := cfg.Scale(250, 20000)
+	aborted := false
+inputLoop:
 	for _, in := range inputs {
 		src := in.src
 		if src != "" {
@@ -195,9 +212,11 @@ func runC11(cfg *vh.Config) error {
 			inS := fmt.Sprintf("%q failFast=%v", src, ff)
 			if g.Timeout {
 				res.Fail(vh.Failure{Case: caseNo, Stream: in.stream, Sig: "C11 ParseFile does not terminate", Clause: "always terminates", Input: inS, Got: "no result after 5s"})
-				bad = true
 				caseNo++
-				continue
+				// the runaway goroutine keeps a CPU busy: stop generating, report what we have
+				res.Notes = append(res.Notes, "run stopped at the first non-terminating input")
+				aborted = true
+				break inputLoop
 			}
 			if g.Panic != nil {
 				res.Fail(vh.Failure{Case: caseNo, Stream: in.stream, Sig: "C11 ParseFile panic: " + panicClass(g.Panic), Clause: "never panics", Input: inS, Got: fmt.Sprint(g.Panic)})
@@ -318,7 +337,7 @@ func runC11(cfg *vh.Config) error {
 
 	// ---- stream 5: humanString on arbitrary (also nonsensical) positions
 	nH := cfg.Scale(250, 10000)
-	for i := 0; i < nH; i++ {
+	for i := 0; i < nH && !aborted; i++ {
 		src := window(r, vh.Pick(r, corpus), 6)
 		if i%2 == 0 {
 			src = mutate(r, src)
